@@ -514,6 +514,11 @@ pub fn mutators(cfg: &Cfg) -> Vec<Op> {
             for fam in [IterFam::IterMut, IterFam::IterLruMut, IterFam::ValuesMut, IterFam::ValuesLruMut] {
                 v.push(Op::IterW(li, fam, 0));
             }
+            // writes addressed by the yielded key, walking from the back and from the front
+            for fam in [IterFam::IterMut, IterFam::IterLruMut] {
+                v.push(Op::IterW(li, fam, 100));
+                v.push(Op::IterW(li, fam, 201));
+            }
         }
         if cfg.kind == Kind::Raw {
             v.push(Op::IterW(0, IterFam::MutIntoIter, 0));
@@ -521,7 +526,7 @@ pub fn mutators(cfg: &Cfg) -> Vec<Op> {
     }
     if cfg.with_clone && matches!(cfg.kind, Kind::Raw | Kind::Slru | Kind::Wtlfu) {
         v.push(Op::CloneReplace);
-        if cfg.kind == Kind::Raw && cfg.callback == 0 {
+        if cfg.callback == 0 {
             v.push(Op::CloneFromReplace);
         }
     }
@@ -563,6 +568,13 @@ pub fn mutators(cfg: &Cfg) -> Vec<Op> {
 pub fn iterw_target(snap: &Snap, list: u8, fam: IterFam, n: u8) -> Option<(usize, usize)> {
     let l = snap.lists.get(list as usize)?;
     let n = n as usize;
+    if n >= 100 {
+        // addressed by key (see iters::by_key)
+        if !matches!(fam, IterFam::IterMut | IterFam::IterLruMut | IterFam::MutIntoIter) {
+            return None;
+        }
+        return l.iter().position(|e| e.0 as usize == n % 100).map(|p| (list as usize, p));
+    }
     if n >= l.len() {
         return None;
     }
